@@ -211,25 +211,47 @@ RepTemplates == RShapes \cup {<<"then", sh, RestCap>> : sh \in RShapes}
 (* as prefix and infix; atoms a / b                                                              *)
 PAtom == <<"oneof", <<"a", "b">>>>
 PTables ==
-  { << <<"infixl", 1, "+">>, <<"infixl", 2, "*">> >>,
-    << <<"infixl", 1, "+">>, <<"infixr", 1, "^">> >>,                    \* equal powers, opposite associativity
-    << <<"infixr", 2, "^">>, <<"infixl", 1, "+">>, <<"prefix", 3, "-">> >>,
-    << <<"prefix", 1, "-">>, <<"infixl", 2, "-">>, <<"postfix", 3, "!">> >>,   \* same symbol prefix and infix
-    << <<"prefix", 2, "-">>, <<"postfix", 1, "!">>, <<"infixl", 1, "+">> >>,
-    << <<"postfix", 2, "!">>, <<"prefix", 3, "~">>, <<"infixr", 0, "+">>, <<"infixl", 0, "*">> >>,
-    << <<"infixl", 2, "+">>, <<"infixl", 1, "+">> >>,                    \* the same symbol twice: declaration order decides
-    << <<"infixl", 0, "+">>, <<"infixl", 1, "*">>, <<"infixr", 2, "^">>, <<"prefix", 3, "-">>, <<"postfix", 3, "!">>, <<"infixl", 1, "-">> >> }
+  { << <<"infixl", 1, J("+")>>, <<"infixl", 2, J("*")>> >>,
+    << <<"infixl", 1, J("+")>>, <<"infixr", 1, J("^")>> >>,                    \* equal powers, opposite associativity
+    << <<"infixr", 2, J("^")>>, <<"infixl", 1, J("+")>>, <<"prefix", 3, J("-")>> >>,
+    << <<"prefix", 1, J("-")>>, <<"infixl", 2, J("-")>>, <<"postfix", 3, J("!")>> >>,   \* same symbol prefix and infix
+    << <<"prefix", 2, J("-")>>, <<"postfix", 1, J("!")>>, <<"infixl", 1, J("+")>> >>,
+    << <<"postfix", 2, J("!")>>, <<"prefix", 3, J("~")>>, <<"infixr", 0, J("+")>>, <<"infixl", 0, J("*")>> >>,
+    << <<"infixl", 2, J("+")>>, <<"infixl", 1, J("+")>> >>,                    \* the same symbol twice: declaration order decides
+    << <<"infixl", 0, J("+")>>, <<"infixl", 1, J("*")>>, <<"infixr", 2, J("^")>>, <<"prefix", 3, J("-")>>, <<"postfix", 3, J("!")>>, <<"infixl", 1, J("-")>> >> }
 (* C09: loosely binding prefix operators under tighter infix operators, equal powers with opposite associativity: *)
 (* shapes that need five or six tokens (run over a small alphabet)                                                  *)
 PTablesP ==
-  { << <<"prefix", 0, "-">>, <<"infixl", 2, "*">>, <<"infixl", 1, "+">> >>,
-    << <<"infixl", 1, "+">>, <<"infixr", 1, "*">> >>,
-    << <<"infixr", 1, "+">>, <<"infixl", 1, "*">>, <<"postfix", 0, "-">> >>,
-    << <<"prefix", 1, "-">>, <<"infixr", 2, "*">>, <<"infixl", 0, "+">>, <<"postfix", 1, "+">> >> }
+  { << <<"prefix", 0, J("-")>>, <<"infixl", 2, J("*")>>, <<"infixl", 1, J("+")>> >>,
+    << <<"infixl", 1, J("+")>>, <<"infixr", 1, J("*")>> >>,
+    << <<"infixr", 1, J("+")>>, <<"infixl", 1, J("*")>>, <<"postfix", 0, J("-")>> >>,
+    << <<"prefix", 1, J("-")>>, <<"infixr", 2, J("*")>>, <<"infixl", 0, J("+")>>, <<"postfix", 1, J("+")>> >> }
 PrattPTemplates == {<<"pratt", <<"oneof", <<"a">>>>, t, k>> : t \in PTablesP, k \in {"vec", "tuple"}}
 PrattTemplates ==
   {<<"pratt", PAtom, t, k>> : t \in PTables, k \in {"vec", "tuple"}}
   \cup {<<"then", <<"pratt", PAtom, t, "vec">>, RestCap>> : t \in PTables}
+(* C09: operator parsers that are more than one symbol: doubled symbols next to single ones in both declaration   *)
+(* orders (the shorter one shadows the longer: its operand fails, the operator is rewound and the longer one is      *)
+(* tried), a choice of symbols, operator parsers that emit (an abandoned operator leaves no trace: C05)              *)
+PA1 == <<"oneof", <<"a">>>>
+VJ(t) == <<"validate", J(t), "1", "F">>
+PTablesM ==
+  { << <<"infixl", 2, JJ("*", "*")>>, <<"infixl", 1, J("*")>> >>,
+    << <<"infixl", 1, J("*")>>, <<"infixr", 2, JJ("*", "*")>> >>,
+    << <<"prefix", 2, JJ("-", "-")>>, <<"prefix", 1, J("-")>>, <<"infixl", 1, J("-")>> >>,
+    << <<"postfix", 2, JJ("!", "!")>>, <<"postfix", 1, J("!")>>, <<"infixl", 0, <<"or", J("*"), J("-")>>>> >>,
+    << <<"infixl", 1, VJ("*")>>, <<"postfix", 1, JJ("*", "!")>> >>,
+    << <<"prefix", 1, VJ("-")>>, <<"infixl", 1, J("-")>>, <<"postfix", 0, VJ("!")>> >> }
+PrattMTemplates == {<<"pratt", PA1, t, k>> : t \in PTablesM, k \in {"vec", "tuple"}}
+(* parenthesised sub-expressions: the atom refers back to the whole expression (the usual shape of an expression   *)
+(* grammar), so Pratt invocations nest through recursive()                                                          *)
+PRecAtom == <<"or", PA1, <<"delim", Ref1, J(LP), J(RP)>>>>
+PTablesR ==
+  { << <<"infixl", 1, J("+")>>, <<"infixl", 2, J("*")>> >>,
+    << <<"prefix", 1, J("+")>>, <<"postfix", 2, J("*")>> >>,
+    << <<"infixr", 1, J("+")>>, <<"prefix", 2, J("*")>> >> }
+PrattRTemplates == {<<"rec", <<"pratt", PRecAtom, t, k>>>> : t \in PTablesR, k \in {"vec", "tuple"}}
+                   \cup {<<"rec", <<"pratt", <<"or", PA1, <<"mw", <<"delim", Ref1, J(LP), J(RP)>>>>>>, t, "vec">>>> : t \in PTablesR}
 (* one memoized parser VALUE used twice (C11): the second use at the same position must behave *)
 (* like the first; nullable memoized parsers; a memoized failure hit again after a different    *)
 (* alternative failed at the same position                                                      *)
@@ -362,8 +384,8 @@ Templates(fam) == CASE fam = "memoT" -> MemoTemplates [] fam = "slcT" -> SlcTemp
                     \* byte inputs have no text::newline; the radix family looks at int / digits only
                     [] fam = "txtb" -> {g \in TxtTemplates \cup TxtCTemplates : ~HasOp(g, {"newline"}) /\ g \notin {TUKw(<<"E", "a">>), <<"then", TUKw(<<"E", "a">>), RestCap>>}}
                     [] fam = "txtr" -> {<<"then", tp, RestCap>> : tp \in {TDigits(r) : r \in {"2", "8", "10", "16", "36"}} \cup {TInt(r) : r \in {"2", "8", "10", "16", "36"}}} [] fam = "drpT" -> DrpTemplates [] fam = "rcvT" -> RcvTemplates [] fam = "lblT" -> LblTemplates
-                    [] fam = "pratt" -> PrattTemplates [] fam = "prattP" -> PrattPTemplates [] fam = "rec" -> RecTemplates [] fam = "lrec" -> LRecTemplates [] fam = "repT" -> RepTemplates
-TemplateFams == {"rec", "lrec", "repT", "pratt", "prattP", "memoT", "rcvT", "lblT", "drpT", "txt", "txtc", "txtb", "txtr", "gapT", "gapTi", "rcvN", "stat", "rcvE", "extT", "slcT"}
+                    [] fam = "pratt" -> PrattTemplates [] fam = "prattP" -> PrattPTemplates [] fam = "prattM" -> PrattMTemplates [] fam = "prattRec" -> PrattRTemplates [] fam = "rec" -> RecTemplates [] fam = "lrec" -> LRecTemplates [] fam = "repT" -> RepTemplates
+TemplateFams == {"rec", "lrec", "repT", "pratt", "prattP", "prattM", "prattRec", "memoT", "rcvT", "lblT", "drpT", "txt", "txtc", "txtb", "txtr", "gapT", "gapTi", "rcvN", "stat", "rcvE", "extT", "slcT"}
 
 (* Instrumentation (C01, C18): every node of a grammar is wrapped in probe(enter).ignore_then(node).then_ignore(   *)
 (* probe(exit)); a probe consumes nothing, never fails and logs (id, cursor, inspector state, context), so the   *)
@@ -510,7 +532,7 @@ Flat(v) ==
     [] v[1] = "L" -> FlatSeq(v[2])
     [] OTHER -> <<>>
 PrattFlatten ==
-  (st.done /\ result.ok /\ TopMode = "E" /\ Fam \in {"pratt", "prattP"}) => Flat(result.out) = Toks
+  (st.done /\ result.ok /\ TopMode = "E" /\ Fam \in {"pratt", "prattP", "prattM"}) => Flat(result.out) = Toks
 
 (* C14: whenever a text parser returns, it matched exactly the prefix its documented language   *)
 (* prescribes (and failed where the language has no match), and its output is that slice        *)
